@@ -89,6 +89,17 @@ func C05(t *rapid.T, big bool) *world.Scenario {
 	}
 	if rp.Shape == "chunked" && Pct(t, "trailer", 50) {
 		rp.Trailer = [][2]string{H("X-Trailer", "t$S")}
+		// a field the Connection field names is hop-by-hop in the trailer section as well
+		for _, kv := range rp.Header {
+			if kv[0] == "X-Hop" && strings.HasPrefix(kv[1], "hop") && Pct(t, "trailer-hop", 60) {
+				rp.Trailer = append(rp.Trailer, H("X-Hop", "hop$S;"))
+				break
+			}
+		}
+	}
+	if Pct(t, "closeerr", 8) {
+		// every byte of the body arrives, and then its Close reports an error
+		rp.Body.CloseErr = true
 	}
 	first := &world.Req{Method: "GET", URL: u, Uncond: rp}
 	sc.Steps = append(sc.Steps, ReqStep(first))
